@@ -59,8 +59,8 @@ Theorem C03_rules_compose : forall gm meta arts cl dl ml rs1 rs2 q,
 Proof. exact verify_rules_app. Qed.
 Print Assumptions C03_rules_compose.
 
-(* ---- rule grammar: accepted iff one of the ten token shapes (keywords compared
-        ignoring ASCII case, WITH type materials|products); anything else is the format
+(* ---- rule grammar: accepted iff one of the ten token shapes (keywords compared after
+        lower-casing as Go's strings.ToLower does: A-Z, and U+0130 -> i, U+212A -> k, WITH type materials|products); anything else is the format
         error — never a panic, never Ok ---- *)
 Theorem C03_unpack_rule_grammar : forall r,
   (forall d, unpack_rule r = Ok d <-> exists sr, rule_shape r sr /\ d = rd_of sr) /\
@@ -226,6 +226,16 @@ Example C03_example_collision :
   clean_artifact_paths a = [(bs "foo", h2); (bs "sub/x", h1)] /\
   clean_artifact_paths (rev a) = clean_artifact_paths a.
 Proof. vm_compute. split; reflexivity. Qed.
+
+(* keywords and Unicode: U+0130 (C4 B0) lower-cases to 'i', so "MOD\u0130FY" is MODIFY (as in the Go code);
+   U+017F LONG S (C5 BF) merely case-FOLDS to 's' and is not changed by lower-casing: "DI\u017FALLOW" is
+   not a keyword, the rule is malformed — never accepted and ignored *)
+Example C03_example_unicode_keywords :
+  unpack_rule [[77; 79; 68; 196; 176; 70; 89]; bs "*"] = Ok (mkRD (bs "modify") (bs "*") [] [] [] []) /\
+  unpack_rule [[68; 73; 197; 191; 65; 76; 76; 79; 87]; bs "*"] = Err err_rule_format /\
+  (forall gm, verify_artifacts gm [(bs "build", [], [[bs "ALLOW"; bs "foo"]; [[68; 73; 197; 191; 65; 76; 76; 79; 87]; bs "*"]])] meta_ex
+              = Err err_rule_format).
+Proof. split; [|split]; [vm_compute; reflexivity ..|]. intro gm. vm_compute. reflexivity. Qed.
 
 Example C03_example_clean :
   clean_path (bs "sub/dir/bar") /\ ~ clean_path (bs "./a") /\ ~ clean_path (bs "a//b") /\ ~ clean_path (bs "/a") /\
